@@ -1269,6 +1269,23 @@ class MempoolFamily(SubsFamily):
                 plan.append(dict(op='mp_add', n=rng.choice([60, 120, 200]), chain=1.0, linear=True, seed=rng.getrandbits(32)))
                 plan.append(dict(op='wait', dt=rng.choice([8.0, 16.0])))
                 plan.append(dict(op='settle'))
+            if rng.random() < 0.15:
+                # motif: clients keep asking for confirmed histories / unspent lists (worker-thread reads of the same
+                # files and tables) while the tracker looks up the confirmed outputs that new mempool transactions
+                # spend: the refreshes completing meanwhile are synchronised ones and must be exact all the same
+                k['preempt'] = True
+                ncl = rng.randint(1, 3)
+                for c in range(ncl):
+                    for _ in range(rng.randint(1, 3)):
+                        plan.append(dict(op='c_query', c=c, m=rng.choice(['get_history', 'get_history', 'listunspent']),
+                                         s=rng.randrange(13), h=0, pos=0, merkle=False,
+                                         at=round(rng.uniform(0.01, 1.0), 2), rep=rng.choice([40, 80]),
+                                         every=rng.choice([0.1, 0.2, 0.3])))
+                for _ in range(rng.randint(2, 5)):
+                    plan.append(dict(op='mp_add', n=rng.choice([3, 6, 12, 30]), chain=rng.choice([0.0, 0.3]),
+                                     at=round(rng.uniform(0.5, 12.0), 2), seed=rng.getrandbits(32)))
+                plan.append(dict(op='wait', dt=rng.choice([16.0, 25.0])))
+                plan.append(dict(op='settle'))
             if rng.random() < 0.12:
                 # motif: the daemon is merely slow - one batch of raw transactions takes much longer than several
                 # refresh periods (well inside the HTTP client's 5-minute limit) while nothing else changes: the
